@@ -43,7 +43,7 @@ TECHNIQUE = ("Lean 4 / Mathlib proof (list algebra, order, interval-integral sub
              "definitions translated from the Python AST + differential run of the Float model + oracle on the implementation "
              "(mpmath.quad, exact rationals, sign and containment checks)")
 GEN = ["rtransform", "transform1d", "onedgrid_init"]
-LEAN_MODULES = ["GridVerif.Props.C04.General", "GridVerif.Props.C04.Concrete", "GridVerif.Props.C04.Extended", "GridVerif.Props.C04.Constructor"]
+LEAN_MODULES = ["GridVerif.Props.C04.General", "GridVerif.Props.C04.Concrete", "GridVerif.Props.C04.Extended", "GridVerif.Props.C04.Constructor", "GridVerif.Props.C04.Formulas"]
 THEOREMS = [f"GridVerif.C04.{t}" for t in [
     "integrate_transformed_signed", "integrate_transformed_partial", "integrate_transformed_decreasing",
     "reflection_midpoint1", "integrate_transformed_fails_at",
@@ -56,7 +56,11 @@ THEOREMS = [f"GridVerif.C04.{t}" for t in [
     "inverse_becke_transform_posInf", "inverse_becke_domain_nan"]] + [     # round 2: the domain clauses on XReal (exact reals + IEEE inf/nan)
     # round 3: OneDGrid.__init__ generated statement by statement, its 1e-7 window alone and seen through a transform
     f"GridVerif.C04.Ctor.{t}" for t in ["init_eq_model", "init_ndim", "transform1dGridGen_eq", "init_accepts_iff", "init_ok_eq", "init_window_below",
-                                        "init_window_above", "transform_accepts_iff", "linear_slack_above", "linear_slack_below"]]
+                                        "init_window_above", "transform_accepts_iff", "linear_slack_above", "linear_slack_below"]] + [
+    # round 6: the generated half-line maps are the documented formula for every argument, also beyond b; nodes / weights of the new grid node by node
+    f"GridVerif.C04.Formulas.{t}" for t in ["linearInfinite_transform_formula", "linearInfinite_beyond_b", "linearInfinite_deriv_is_slope",
+                                            "linearInfinite_transform_deriv_consistent", "exp_transform_formula", "power_transform_formula",
+                                            "linearInfinite_grid_nodes", "linearInfinite_grid_weights"]]
 RULE = (
     "correspondence: one evaluation = one call tf.transform_1d_grid(grid) (or OneDGrid(points, weights, domain)) made on the "
     "implementation and on the Lean model at Float; grid = one of 24 rule classes x npoints (smallest admissible, odd, even, "
